@@ -129,6 +129,7 @@ def check(run):
     _PROG[0] = prog
     _r1(run, classes)
     _r2(run, classes)
+    _example(run, prog, classes)
     run.include('C13', {'cherab/core/math/mappers.pyx', 'cherab/core/math/mask.pyx', 'cherab/core/math/clamp.pyx'},
                 'map3d / map_vector3d / inside_lcfs are built from the axisymmetric mappers, the polygon mask and the output clamp')
     from ..cachekey import check_caches
@@ -290,6 +291,76 @@ def _r1(run, classes):
                  'FluxCoordToCartesian builds its poloidal/normal directions as %s; the basis classes use %s / %s, each scaled by its own component function '
                  'and summed with the toroidal component' % (detail, [str(x) for x in pol], [str(x) for x in nor]))
     run.floor('C12-R1', 9)
+
+
+# stored key of the example file -> constructor parameter it describes (where the names differ)
+_EXAMPLE_KEYS = {'psi': 'psi_grid', 'axis_coord': 'magnetic_axis'}
+
+
+def _example(run, prog, classes):
+    """R3: example_equilibrium hands every stored quantity of example.json to the EFITEquilibrium parameter it describes (the psi grid
+    as the psi grid, the LCFS polygon as the LCFS polygon, ...), points built as Point2D(r, z) from (entry[0], entry[1])."""
+    run.describe('C12-R3', 'example_equilibrium: each stored quantity is passed as the constructor parameter of the same meaning; points are (entry[0], entry[1])')
+    rel = 'cherab/tools/equilibrium/example.py'
+    mi = prog.load(rel, required=False)
+    if mi is None:
+        raise AnalysisError('anchored source file vanished: %s' % rel)
+    run.use_file(rel)
+    fn = mi.functions.get('example_equilibrium')
+    ci = classes.get('EFITEquilibrium')
+    if fn is None or ci is None or '__init__' not in ci.methods:
+        raise AnalysisError('anchored function vanished: example_equilibrium / EFITEquilibrium.__init__')
+    params = [a.arg for a in ci.methods['__init__'].args.args[1:]]
+    defs = {}
+    for st in ast.walk(fn):
+        if isinstance(st, ast.Assign) and len(st.targets) == 1 and isinstance(st.targets[0], ast.Name):
+            defs.setdefault(st.targets[0].id, []).append(st.value)
+    data = [n for n, vs in defs.items() if any(isinstance(v, ast.Call) and dotted(v.func) in ('json.load', 'json.loads') for v in vs)]
+    K = mi.name + '|example_equilibrium|'
+    calls = [c for c in ast.walk(fn) if isinstance(c, ast.Call) and (dotted(c.func) or '').split('.')[-1] == 'EFITEquilibrium']
+    if len(calls) != 1 or not data:
+        run.subject('C12-R3')
+        run.undecided('C12-R3', 'example_equilibrium', 'constructor call or json.load not found')
+        return
+
+    def keys(e, depth=0):
+        out = set()
+        for x in ast.walk(e):
+            if isinstance(x, ast.Subscript) and isinstance(x.value, ast.Name) and x.value.id in data and isinstance(x.slice, ast.Constant):
+                out.add(x.slice.value)
+            elif isinstance(x, ast.Name) and x.id in defs and x.id not in data and depth < 4:
+                for v in defs[x.id]:
+                    out |= keys(v, depth + 1)
+        return out
+    call = calls[0]
+    bound = list(zip(params, call.args)) + [(k.arg, k.value) for k in call.keywords]
+    for pname, arg in bound:
+        run.subject('C12-R3')
+        ks = keys(arg)
+        want = {k for k in ks if _EXAMPLE_KEYS.get(k, k) == pname}
+        if ks and ks == want:
+            run.ok('C12-R3', 'example_equilibrium %s' % pname, 'from %s' % sorted(ks), sample=False)
+        elif ks:
+            run.fail('C12-R3', K + 'wiring:' + pname, rel, arg.lineno,
+                     "example_equilibrium passes the stored %s as the constructor parameter '%s': the example equilibrium is built from "
+                     "another quantity than the one the file stores for it" % (sorted(ks), pname))
+        else:
+            run.undecided('C12-R3', 'example_equilibrium %s' % pname, 'argument %s not traced to the file' % norm(arg)[:40])
+    # points: Point2D(entry[0], entry[1])
+    for c in ast.walk(fn):
+        if isinstance(c, ast.Call) and (dotted(c.func) or '').split('.')[-1] == 'Point2D' and len(c.args) == 2:
+            run.subject('C12-R3')
+            idx = [norm(a.slice) if isinstance(a, ast.Subscript) else None for a in c.args]
+            base = [norm(a.value) if isinstance(a, ast.Subscript) else None for a in c.args]
+            if idx == ['0', '1'] and base[0] == base[1]:
+                run.ok('C12-R3', 'example_equilibrium point %s' % base[0], 'Point2D(entry[0], entry[1])', sample=False)
+            elif None in idx:
+                run.undecided('C12-R3', 'example_equilibrium point', 'coordinates %s' % norm(c)[:40])
+            else:
+                run.fail('C12-R3', K + 'point:' + norm(c)[:30], rel, c.lineno,
+                         'example_equilibrium builds %s: the stored points are (r, z) pairs, so the coordinates are entry[0], entry[1] of the '
+                         'same entry' % norm(c))
+    run.floor('C12-R3', 15)
 
 
 def _wiring(run, K, what, got_call, fname, want_args, path, line, kw=None):
